@@ -580,7 +580,13 @@ def oracle(c, o):
     inside = [r for r in o['rows'] if s0 <= r[0] and r[1] <= s0 + n - 1]
     for nm in ('peaks', 'troughs'):
         must = [r[3] for r in inside] if nm == 'peaks' else sorted(set([r[0] for r in inside] + [r[1] for r in inside]))
-        msg = judge_markers('summary', nm, o['markers'][nm], [p for p in must if strictly_inside(p)])
+        need = [p for p in must if strictly_inside(p)]
+        if nm not in o['markers']:
+            # the figure has fewer marker series than kinds of extrema: nothing of this kind is drawn at all
+            if need:
+                return 'summary: no %s marker series in the figure although %s at samples %s lie strictly inside the view' % (nm, nm, need[:6])
+            continue
+        msg = judge_markers('summary', nm, o['markers'][nm], need)
         if msg:
             return msg
     if not o['mask_x_ok']:
@@ -659,7 +665,7 @@ def coq_case(c, o):
         nm = o['names'][0]
         si = o['series_in']
         src = {'peaks': si['centres'], 'troughs': si['sides'], 'rises': si['rises'], 'decays': si['decays']}[nm]
-        got = [g[0] - s0 for g in o['series'][nm] if s0 < g[0] < s0 + n - 1]
+        got = [g[0] - s0 for g in (o['series'].get(nm) or []) if s0 < g[0] < s0 + n - 1]
         src = [p for p in src if p != s0]
         return '(%d%%Z, %d%%nat, %d%%Z, %s)' % (s0, n, s0, coqio.zlist(src)), coqio.zlist(got)
     # the whole table goes to the model, which selects the window-limited rows itself (Model/Window.v keep_row)
@@ -680,6 +686,6 @@ def coq_case(c, o):
         tl = p['thr_line']
         line = '(Some %s)' % coqio.fl(tl[0]) if tl and all(v == tl[0] for v in tl) else 'None'
         pans.append('(%s, %s)' % (line, coqio.lst([_zf(q[0] - s0, _val(q[1])) for q in p['points']])))
-    mk = [coqio.zlist([g[0] - s0 for g in o['markers'][nm] if s0 < g[0] < s0 + n - 1]) for nm in ('peaks', 'troughs')]
+    mk = [coqio.zlist([g[0] - s0 for g in o['markers'].get(nm, []) if s0 < g[0] < s0 + n - 1]) for nm in ('peaks', 'troughs')]
     outp = '(%s, (%s, %s), %s)' % (coqio.barr(o['mask_len'], o['mask']), mk[0], mk[1], coqio.lst(pans))
     return inp, outp
